@@ -73,6 +73,16 @@ class RunnableRails(Runnable[Input, Output]):
         async def passthrough_fn(context: dict, events: List[dict]):
             # First, we fetch the input from the context
             _input = context.get("passthrough_input")
+            # The input rails might have altered the user message
+            user_message = context.get("user_message")
+            if user_message is not None:
+                if isinstance(_input, str):
+                    _input = user_message
+                elif (
+                    isinstance(_input, dict)
+                    and self.passthrough_user_input_key in _input
+                ):
+                    _input = {**_input, self.passthrough_user_input_key: user_message}
             async_wrapped_invoke = async_wrap(self.passthrough_runnable.invoke)
             _output = await async_wrapped_invoke(_input, self.config, **self.kwargs)
 
